@@ -35,7 +35,7 @@ func init() {
 			return 150000
 		},
 		Required: []string{"packets_roundtrip", "corrupt_header_rejected", "corrupt_payload_rejected", "corrupt_hash_rejected",
-			"zero_reads", "payload_max", "payload_at_buffer_edge", "ext_nonempty", "eof_after_last", "corrupt_ext_nopanic"},
+			"zero_reads", "payload_max", "payload_at_buffer_edge", "ext_nonempty", "ext_longer_than_length_field", "eof_after_last", "corrupt_ext_nopanic"},
 		Assumptions: []string{
 			"FNV-1a 64 is the packet hash: any single-byte change inside equally long input changes it (bijective steps); a corrupted length field is accepted only on a 64-bit collision",
 			"the 2 extension-info bytes and the extension bytes are outside the hash and outside the statement's corruption clause: mutated only to look for panics",
@@ -57,7 +57,8 @@ type spec struct {
 	dest, ttl byte
 	payload   []byte
 	hint      byte
-	ext       []byte
+	ext       []byte // extension bytes expected on the wire (extRaw cut to the advertised 10-bit length)
+	extRaw    []byte // what the sender put into the packet
 }
 
 func (s *spec) wireLen() int {
@@ -71,7 +72,7 @@ func (s *spec) brief() map[string]interface{} {
 	}
 	return map[string]interface{}{
 		"pi": s.pi, "spi": s.spi, "src": hex.EncodeToString(s.src), "dest": s.dest, "ttl": s.ttl,
-		"payload_len": len(s.payload), "payload_head": hex.EncodeToString(p), "hint": s.hint, "ext": hex.EncodeToString(s.ext),
+		"payload_len": len(s.payload), "payload_head": hex.EncodeToString(p), "hint": s.hint, "ext": hex.EncodeToString(s.ext), "ext_raw_len": len(s.extRaw),
 	}
 }
 
@@ -123,9 +124,12 @@ func genSpec(r *rand.Rand, big bool) *spec {
 	switch r.Intn(4) {
 	case 0:
 		s.hint = byte(r.Intn(64))
-		m := []int{1, 4, 8, 400, 1022, 1023, r.Intn(1024)}[r.Intn(7)]
-		s.ext = make([]byte, m)
-		r.Read(s.ext)
+		// 1024 and more: the 10-bit length field wraps; the writer must put exactly the advertised
+		// number of extension bytes on the wire or every later packet of the stream is misframed (seed C30d)
+		m := []int{1, 4, 8, 400, 1022, 1023, r.Intn(1024), 1024, 1025, 1028, 2047, 2048, 1024 + r.Intn(3000)}[r.Intn(13)]
+		s.extRaw = make([]byte, m)
+		r.Read(s.extRaw)
+		s.ext = s.extRaw[:m&1023]
 	case 1:
 		s.hint = byte(r.Intn(64)) // hint without bytes
 	}
@@ -196,7 +200,7 @@ func run(c *ev.Ctx) {
 		offs := make([]int, np+1)
 		for i, s := range specs {
 			offs[i] = stream.Len()
-			pkt := network.VerifNewPacket(s.pi, s.spi, s.src, s.dest, s.ttl, s.payload, s.hint, s.ext)
+			pkt := network.VerifNewPacket(s.pi, s.spi, s.src, s.dest, s.ttl, s.payload, s.hint, s.extRaw)
 			if err := pw.WritePacket(pkt); err != nil {
 				c.Violation("write.error", map[string]interface{}{"packet": s.brief(), "index": i, "err": err.Error()})
 				return
@@ -210,6 +214,9 @@ func run(c *ev.Ctx) {
 				c.Count("payload_max", 1)
 			case n >= 4055 && n <= 4097:
 				c.Count("payload_at_buffer_edge", 1)
+			}
+			if len(s.extRaw) > 1023 {
+				c.Count("ext_longer_than_length_field", 1)
 			}
 			if len(s.ext) > 0 {
 				c.Count("ext_nonempty", 1)
